@@ -1,28 +1,100 @@
-"""Check definitions of builder codecA: C05 (decode), C06 (round trip)."""
+"""Check definitions of builder codecA: C05 (decoding yields the specified value), C06 (encoding inverts decoding)."""
 
 CHECKS = {}
 
 _DEPS = ["engines/codec/refcodec.h", "engines/codec/codecA_harness.h"]
 
+_DOMAINS = (
+    "field definitions are built through DataField::create and driven through DataField::read/write; "
+    "every registered type id (a registered id without reference specification is reported as a cap); "
+    "numeric types x divisors {none, 10, 100, 1000, -10, -100, -1000} (on top of the built-in divisor); "
+    "all 256 / 65536 raw patterns of every 1- and 2-byte type; 3-byte types: product of a 16-value byte alphabet "
+    "{00,01,09,0a,10,12,63,64,7f,80,81,99,9a,a9,fe,ff} plus +-4 neighbourhoods of every power of two, min, max and "
+    "the replacement%s; 4-byte types: alphabet product (65536) plus the neighbourhoods; BI0..BI7 with every admissible "
+    "bit count x {none,10,-10}; EXP/EXR: all 256 exponents x sign x %s mantissas plus the 4-byte domain, x 7 divisors%s; "
+    "BDA/BDZ/HDA (3- and 4-byte forms): every calendar day 2000-2099 x %s weekday bytes plus the generic domain; "
+    "DAY, MIN: all 65536; DTM: every day of the range x 9 minute values, every minute of the first and last three days, "
+    "3000 values beyond the maximum and around 2^31/2^32, plus the 4-byte domain; BTI/HTI/VTI: every second of the day "
+    "plus the generic domain; BTM/HTM/VTM/TTM/TTH/TTQ/BDY/HDY: all patterns; STR/NTS/HEX/IGN: every string of length "
+    "1..4 over a 12-byte alphabet, lengths 5..31 and '*' with 6 pattern families; value lists on 17 type/list "
+    "combinations; TEM_P in master and slave data: all 65536; KNX 16-bit float: all 65536."
+)
+
 CHECKS["C05"] = {
     "engine": "codec", "design_ref": "5/C05",
     "level": "exploration",
-    "level_text": "x",
-    "level_note": "x",
+    "level_text": "plain exhaustive enumeration of finite input domains (no operation histories): every enumerated raw "
+                  "pattern x definition x output format is decoded by the real DataField::read path and judged by an "
+                  "independent exact-arithmetic reference (type table from the type comments, __int128 rationals, "
+                  "proleptic Gregorian calendar); 1- and 2-byte domains are complete, wider domains are structured "
+                  "subsets or (thorough) complete 2^24 sweeps",
+    "level_note": "trusts the reference codec (self-tested on hand-computed facts at start-up) and its three-valued "
+                  "judgement: exact decimal ties, partial nulls, non-existent calendar days (30.02.), 24:00, values "
+                  "outside a value list, IEEE top binade and non-printable characters are don't-care; IEEE texts are "
+                  "compared in 80-bit extended precision with a guard band; the 2^-23 relative error of binary32 "
+                  "arithmetic is admitted only for |raw| >= 2^24 with a divisor and for EXP/EXR with a divisor; errno "
+                  "is cleared before each call (C12's subject)",
     "technique": "bounded-exhaustive enumeration of the real decode paths against an exact-arithmetic reference codec",
-    "rule": "x",
-    "assumptions": [],
+    "rule": "one evaluation = one (definition, raw pattern, output format) decoded by the real code and judged; formats: "
+            "text and JSON everywhere, additionally OF_NUMERIC / OF_VALUENAME (text and JSON) for value lists; distinct = "
+            "distinct (definition, format, result, produced text) outcomes (statistic saturates at 300000 per partition). " +
+            _DOMAINS % ("", "27", "", "12"),
+    "assumptions": [
+        "reference type table = type comments and constructor parameters (bit count, replacement, min, max, divisor) "
+        "in DataTypeList::DataTypeList; number of decimals of a divisor d = smallest p with 10^p >= d",
+        "a printed number is correct iff |printed - exact| <= 1/2 unit of the last decimal of the type's precision "
+        "(ties both ways); EXP/EXR: 1/2 unit of the 6th significant digit",
+        "JSON null of a date/time type may be rendered as null or as the quoted null text",
+    ],
     "runs": [{
         "harness": "c05_decode", "sources": ["engines/codec/c05_decode.cpp"], "deps": _DEPS,
         "variant": "plain", "libset": "core",
-        "quick": {"parts": 16, "deadline": 50, "bounds": "x"},
-        "thorough": {"parts": 16, "deadline": 840, "bounds": "x"},
+        "quick": {"parts": 16, "deadline": 55,
+                  "bounds": "3-byte: alphabet product; EXP/EXR: 27 mantissas; 12 weekday bytes; ~33 M decodes"},
+        "thorough": {"parts": 16, "deadline": 840, "args": ["--ieeebits", 28],
+                     "bounds": "3-byte numeric types: all 2^24 patterns for divisors {none,10,1000,-10}; BDA:3/HDA:3/BTI/"
+                               "HTI/VTI: all 2^24 (text+JSON); all 256 weekday bytes; EXP/EXR: 4123 mantissas x 7 divisors; "
+                               "EXP sweep of 2^28 patterns (every sign/exponent x 10 high x 9 low mantissa bits; "
+                               "--ieeebits 32 = all 2^32); ~1.5 G decodes"},
     }],
 }
 
-CHECKS["C06"] = dict(CHECKS["C05"], design_ref="5/C06", runs=[{
-    "harness": "c06_roundtrip", "sources": ["engines/codec/c06_roundtrip.cpp"], "deps": _DEPS,
-    "variant": "plain", "libset": "core",
-    "quick": {"parts": 16, "deadline": 50, "bounds": "x"},
-    "thorough": {"parts": 16, "deadline": 840, "bounds": "x"},
-}])
+CHECKS["C06"] = {
+    "engine": "codec", "design_ref": "5/C06",
+    "level": "exploration",
+    "level_text": "plain exhaustive enumeration of finite input domains with a differential oracle on the real code: "
+                  "(a) every enumerated raw pattern that decodes is encoded again with the same definition and compared "
+                  "on the owned bits, (b) every text of a bounded grammar that encodes is decoded and encoded again "
+                  "(fixed point), (c) all 65536 KNX 16-bit floats are converted there and back",
+    "level_note": "no hand-written expected values except the canonical replacement pattern, the calendar weekday and "
+                  "the input classification taken from the reference codec (classes the statement does not call "
+                  "lossless are not judged: non-printable strings, partial nulls, values outside a value list, |raw| >= "
+                  "2^24 with a divisor, patterns the reference calls invalid - their acceptance is C05's subject); "
+                  "owned bits of the sub-byte kinds are discovered black-box (bits ever set when all values are "
+                  "written onto an empty buffer); errno is cleared before each call (C12's subject)",
+    "technique": "bounded-exhaustive differential round-trip enumeration of the real decode/encode paths",
+    "rule": "one evaluation = one raw pattern (decode, encode, compare) or one text (encode, decode, encode, compare) "
+            "or one KNX value; distinct = distinct (definition, input). Raw domains as C05 (text format): " +
+            _DOMAINS % ("", "27", "", "12") +
+            " Text grammar per type: numbers = sign{,-,+} x 45 integer parts (boundaries, leading zeros, 0x) x 12 "
+            "fractions x 7 exponents + 26 specials, for divisors {none,10,-10,1000}; dates = 12 day x 9 month x 21 year "
+            "spellings (1- and 2-digit parts, 2- and 4-digit years, '-') (x 10 times for DTM); times = 10 hour x 13 "
+            "minute (x 13 second) spellings; value-list names, numbers, fractions; hex with and without blanks, upper "
+            "and lower case; strings; TEM_P group-number texts.",
+    "assumptions": [
+        "null must encode to the canonical replacement pattern (weekday byte of a null date left open)",
+        "EXP/EXR: the re-encoded value may differ by one unit of the last printed digit (+2^-22 relative); at the "
+        "edge of the binary32 range a rejection is admissible",
+        "NTS: bytes after the terminator are padding; remainder-length strings may gain or lose padding",
+    ],
+    "runs": [{
+        "harness": "c06_roundtrip", "sources": ["engines/codec/c06_roundtrip.cpp"], "deps": _DEPS,
+        "variant": "plain", "libset": "core",
+        "quick": {"parts": 16, "deadline": 55,
+                  "bounds": "3-byte: alphabet product; EXP/EXR: 27 mantissas; 12 weekday bytes; ~17 M raw round trips, "
+                            "~2.6 M grammar texts, 65536 KNX values"},
+        "thorough": {"parts": 16, "deadline": 840,
+                     "bounds": "3-byte numeric types: all 2^24 patterns for divisors {none,10}; BDA:3/HDA:3/BTI/HTI/VTI: "
+                               "all 2^24; all 256 weekday bytes; EXP/EXR: 4123 mantissas x 7 divisors; ~510 M round trips"},
+    }],
+}
